@@ -162,6 +162,53 @@ def c08(run, vc):
                       assumptions=["symbolic model: polynomial coefficients are atoms; Lagrange over exact rationals", "reference interpolation on bls12_381_plus"])
 
 
+# ------------------------------------------------------------------------------------ C11 / C12
+def _nontrivial_sc(v):
+    if v["act"] in ("IsValid", "Decrypt"):
+        return bool(v.get("touched")) or (v["act"] == "Decrypt" and not v.get("rightkey"))
+    if v["act"] == "ShareVerify":
+        return not v.get("ideal")
+    if v["act"] == "DecryptShares":
+        return not (v.get("ideal") and len(v["entries"]) == v["t"])
+    return False
+
+
+def c11(run, vc):
+    tier = run.tier
+    tables = _prep(run, vc)
+    cfg = "MC_SignCrypt_%s.cfg" % tier
+    r, bad = _tlc_stage(run, vc, "MC_SignCrypt", cfg, ["Seal", "IsValid", "Decrypt"], timeout=7200)
+    if bad:
+        return run.finish()
+    vecs = [v for v in r["vectors"] if v["act"] in ("Seal", "IsValid", "Decrypt")]
+    outs = {v["expect"].get("out") for v in vecs if v["act"] == "Decrypt"}
+    if not {"Some", "None", "NotOriginal"} <= outs:
+        raise vc.ToolError("vacuity: Decrypt outcomes seen: %s" % outs)
+    _sample(run, [v for v in vecs if v["act"] == "Decrypt"])
+    s = vc.replay(vecs, "c11", tables, profiles="5")
+    run.add_replay(s, "seal / is_valid / decrypt (by key and by decryption key) for every length class, scheme, key and adversary move; V-region moves expanded to every bit", vecs, _nontrivial_sc)
+    return run.finish(rule="vectors = every Seal, IsValid and Decrypt transition of the SignCrypt model: length classes x schemes x keys x <=Depth adversary moves on (U, V regions, W, scheme label, joint identity, re-sealed header) x decrypting key x route; derived executions = every bit of the touched V region / every truncation length, and the independent implementation's exact result; non-trivial = touched ciphertext or wrong key",
+                      assumptions=["symbolic model; XOF mask opaque per point", "independent open on bls12_381_plus + SHAKE128 + hand-written LEB128 framing"])
+
+
+def c12(run, vc):
+    tier = run.tier
+    tables = _prep(run, vc)
+    cfg = "MC_SignCrypt_%s.cfg" % tier
+    r, bad = _tlc_stage(run, vc, "MC_SignCrypt", cfg, [("ShareVerify", "Ok"), ("ShareVerify", "Err"), "DecryptShares"], timeout=7200)
+    if bad:
+        return run.finish()
+    vecs = [v for v in r["vectors"] if v["act"] in ("ShareVerify", "DecryptShares")]
+    outs = {v["expect"].get("out") for v in vecs if v["act"] == "DecryptShares"}
+    if not {"Some", "None", "NotOriginal", "Err"} <= outs:
+        raise vc.ToolError("vacuity: DecryptShares outcomes seen: %s" % outs)
+    _sample(run, vecs)
+    s = vc.replay(vecs, "c12", tables, profiles="5")
+    run.add_replay(s, "decryption-share verification for all (share, key share, ciphertext) combinations and all three schemes; t-of-n decryption by both routes for every share sequence", vecs, _nontrivial_sc)
+    return run.finish(rule="vectors = every ShareVerify (i, j, same/other ciphertext) and DecryptShares (every sequence without repetition over 1..n plus duplicate / zero-id / corrupt insertions, both routes) transition for all (t,n) <= MaxN, all schemes, length classes and keys; non-trivial = mismatched share/key/ciphertext or not exactly t untouched shares",
+                      assumptions=["symbolic model with degree-2 coefficients f(i)*r", "reference interpolation + open on bls12_381_plus"])
+
+
 # ------------------------------------------------------------------------------------ traces
 def _trace_signet(run, vc, tables, name, events, mix="all"):
     """implementation -> spec: record a random walk of the real library, validate with TLC."""
@@ -170,4 +217,4 @@ def _trace_signet(run, vc, tables, name, events, mix="all"):
     vc.record_and_validate(run, "signet", "Trace_SigNet", name, events, tables, mix=mix)
 
 
-CHECKS = {"C01": c01, "C02": c02, "C06": c06, "C07": c07, "C08": c08, "C09": c09}
+CHECKS = {"C01": c01, "C02": c02, "C06": c06, "C07": c07, "C08": c08, "C09": c09, "C11": c11, "C12": c12}
